@@ -216,7 +216,7 @@ def free_vars(e):
     if k == "update":
         return free_vars(e["e"]) | (set().union(*[free_vars(x) for x in e["vals"]]) if e["vals"] else set())
     if k == "trace":
-        return free_vars(e["body"])
+        return free_vars(e["body"]) | set(e.get("targs", []))
     raise ValueError(k)
 
 
@@ -813,6 +813,8 @@ ORD = ["1st", "2nd", "3rd", "4th"]
 
 
 def is_block(e):
+    if e["k"] == "todata" and e.get("implicit"):
+        return False
     return e["k"] in ("let", "letu", "letp", "expect", "cast", "trace", "todata")
 
 
@@ -822,6 +824,8 @@ def render(e, ind=1):
     k = e["k"]
     if is_block(e):
         return "{\n" + render_stmts(e, ind + 1) + "\n" + pad + "}"
+    if k == "todata":          # implicit upcast: the type checker inserts it
+        return render(e["e"], ind)
     if k == "int":
         return str(e["n"])
     if k == "bool":
@@ -912,7 +916,10 @@ def render_stmts(e, ind):
     if k == "cast":
         return "%sexpect %s: %s = %s\n%s" % (pad, e["x"], ty_str(e["ty"]), render(e["e"], ind), render_stmts(e["body"], ind))
     if k == "trace":
-        return '%strace @"%s"\n%s' % (pad, e["msg"], render_stmts(e["body"], ind))
+        targs = (": " + ", ".join(e["targs"])) if e.get("targs") else ""
+        return '%strace @"%s"%s\n%s' % (pad, e["msg"], targs, render_stmts(e["body"], ind))
+    if k == "todata" and e.get("implicit"):
+        return pad + render(e["e"], ind)
     if k == "todata":
         return "%slet typed: %s = %s\n%slet as_data: Data = typed\n%sas_data" % (pad, ty_str(e["ty"]), render(e["e"], ind), pad, pad)
     return pad + render(e, ind)
@@ -954,7 +961,7 @@ def render_module(g):
 def clean(e):
     """drop renderer-only annotations so that the spec sees only what it evaluates"""
     if isinstance(e, dict):
-        drop = {"pipe", "labelled", "pts", "ret", "sty", "ety"}
+        drop = {"pipe", "labelled", "pts", "ret", "sty", "ety", "targs", "implicit"}
         out = {}
         for k, v in e.items():
             if k in drop:
